@@ -168,6 +168,8 @@ def bank_specs(draw, kinds=BANK_KINDS, rates=RATES, max_filts=12, min_filts=1, a
     if kind == "gammatone":
         spec["order"] = draw(st.sampled_from(list(orders)))
         spec["max_centered"] = draw(st.booleans())
+    # how whole-number parameters are passed: as floats (usual), as Python ints, or as numpy scalars
+    spec["numtype"] = draw(st.sampled_from(["float", "float", "float", "int", "numpy"]))
     return spec
 
 
@@ -177,6 +179,14 @@ def build_bank(spec):
     kind = spec["alias"]
     kw = dict(num_filts=spec["num_filts"], high_hz=spec["high_hz"], low_hz=spec["low_hz"],
               sampling_rate=spec["sampling_rate"])
+    nt = spec.get("numtype", "float")
+    if nt != "float":
+        for k in ("low_hz", "high_hz", "sampling_rate"):
+            v = kw[k]
+            if v is not None and float(v) == int(v):
+                kw[k] = int(v) if nt == "int" else (np.int64(int(v)) if k != "sampling_rate" else np.float64(v))
+        if nt == "numpy":
+            kw["num_filts"] = int(kw["num_filts"])
     if kind == "tri":
         return filters.TriangularOverlappingFilterBank(build_scale(spec["scale"]), analytic=spec.get("analytic", False), **kw)
     if kind == "fbank":
